@@ -82,7 +82,7 @@ def check_hx(pid, tier, seed):
                 raise MachineryError("hx population died (rc=%s): %s" % (rc, (err or "")[-800:]))
             o = json.load(open(outp))
             st = o["stats"]
-            if not o["violations"] and (st["full_population_sweeps"] < 7 * 2 * len(sizes) or st["growth_steps"] == 0 or st["refills_without_growth"] == 0):
+            if not o["violations"] and (st["full_population_sweeps"] < 9 * 2 * len(sizes) or st["growth_steps"] == 0 or st["refills_without_growth"] == 0):
                 raise MachineryError("population leg was vacuous: %s" % st)
             agg["executions"] += st["worlds_built"]
             agg["transitions"] += st["phases"]
@@ -97,7 +97,7 @@ def check_hx(pid, tier, seed):
                                 "entities_destroyed": st["entities_destroyed"], "refills_without_growth": st["refills_without_growth"], "handles_compared_for_reissue": st["handles_compared_for_reissue"], "event_log_entries_compared": st.get("event_log_entries_compared", 0), "event_size_hints_checked": st.get("event_size_hints_checked", 0),
                                 "all_zst_archetype": {"worlds": st.get("zst_worlds", 0), "sweeps": st.get("zst_sweeps", 0), "values_accounted": st.get("zst_values_balanced", 0)},
                                 "unique_states": st["phases"], "transitions": st["phases"], "capped": False, "wall_s": round(o["wall_s"], 1)})
-            agg["samples"].append({"scenario": "POP/whole-population", "history": ["fill", "overwrite 2/3 (query, slices)", "destroy every third (4 key kinds)", "ecs_iter_destroy! another third", "refill within capacity", "clone, sweep the clone, empty the clone, sweep the original"]})
+            agg["samples"].append({"scenario": "POP/whole-population", "history": ["fill", "overwrite 2/3 (query, slices)", "destroy every third (4 key kinds)", "ecs_iter_destroy! another third", "ecs_iter_destroy! whose closure panics half way (C10)", "refill within capacity", "clone, sweep the clone, empty the clone, sweep the original"]})
             for v in o["violations"]:
                 rec = dict(v, scenario={"name": "POP/whole-population", "sizes": sizes}, config="population", profile=leg["profile"], features=list(leg["features"]), history=None, engine="hx-pop", extra={"sizes": sizes})
                 if counts is None or any(t in counts for t in v["prop"].split(",")):
